@@ -18,6 +18,9 @@ def plan(tier, seed):
     # thousand postings (many levels)
     specs.append({"name": "big-defaults", "kind": "big", "budget_s": 120 if tier == "quick" else 900,
                   "rounds": 1 if tier == "quick" else 6})
+    for j in range(2 if tier == "quick" else 4):
+        specs.append({"name": f"steered-values-{j}", "kind": "steered", "index": j * 3,
+                      "budget_s": 14 if tier == "quick" else 240})
     from vlib import gen as _gen
     for sch in _gen.SCHEMES:
         specs.append({"name": f"many-keywords-{_gen.SHORT[sch]}", "kind": "big", "many_schemes": [sch], "rounds": 0,
@@ -131,11 +134,15 @@ def run_big(spec, acc, ctx):
 def run_shard(spec, acc, ctx):
     if spec.get("kind") == "big":
         run_big(spec, acc, ctx)
+    elif spec.get("kind") == "steered":
+        eng.run_steered(spec, acc, ctx, "present")
     else:
         eng.run(spec, acc, ctx, "present")
 
 
 def replay(case, acc, ctx):
+    if case.get("steered"):
+        return eng.replay_steered(case, acc, ctx, "present")
     scheme, cfg, db = case["scheme"], case["cfg"], case["db"]
     import copy
     shadow = copy.deepcopy(db)
